@@ -52,9 +52,11 @@ fn build_config(c: &Value) -> BuildConfig {
         b.target_triple(t);
     }
     if let Some(env) = c["env"].as_array() {
-        for kv in env {
+        // the first pair through env(), all later ones through one envs() call (a key set again gets the later value)
+        if let Some(kv) = env.first() {
             b.env(kv[0].as_str().unwrap(), kv[1].as_str().unwrap());
         }
+        b.envs(env.iter().skip(1).map(|kv| (kv[0].as_str().unwrap().to_string(), kv[1].as_str().unwrap().to_string())).collect::<Vec<_>>());
     }
     if c["expected"].as_str() == Some("failure") {
         b.expected_pack_result(PackResult::Failure);
@@ -83,9 +85,10 @@ fn container_config(c: &Value) -> ContainerConfig {
         cc.command(cmd.iter().map(|x| x.as_str().unwrap().to_string()).collect::<Vec<_>>());
     }
     if let Some(env) = c["env"].as_array() {
-        for kv in env {
+        if let Some(kv) = env.first() {
             cc.env(kv[0].as_str().unwrap(), kv[1].as_str().unwrap());
         }
+        cc.envs(env.iter().skip(1).map(|kv| (kv[0].as_str().unwrap().to_string(), kv[1].as_str().unwrap().to_string())).collect::<Vec<_>>());
     }
     if let Some(p) = c["ports"].as_array() {
         for x in p {
